@@ -307,6 +307,78 @@ fn check_set_inner(c0: &SetCase) -> CaseResult {
         .label_if(deep, "depth3"))
 }
 
+/// A set in general position in which some boxes occur more than once: as the same object
+/// referenced twice in the slice, or as a separately allocated copy.
+#[derive(Clone, Debug, Serialize, Deserialize)]
+pub struct DupCase {
+    pub boxes: Vec<UB>,
+    /// (index of the box that occurs once more, true = the same object again / false = a copy)
+    pub dups: Vec<(usize, bool)>,
+}
+
+pub fn dup_case() -> impl Strategy<Value = DupCase> {
+    (
+        proptest::collection::vec((0.0f32..60.0, 0.0f32..60.0, 2.0f32..40.0, 2.0f32..40.0, prop_oneof![1 => Just(None), 3 => (-3.2f32..3.2).prop_map(Some)]), 1..=5),
+        -500.0f32..500.0,
+        proptest::collection::vec((0usize..65536, any::<bool>()), 1..=3),
+    )
+        .prop_map(|(v, off, d)| {
+            let n = v.len();
+            DupCase { boxes: v.iter().map(|&(x, y, w, h, a)| UB::new(x + off, y - off, a, w / h, h)).collect(), dups: d.into_iter().map(|(i, alias)| ((i * n) >> 16, alias)).collect() }
+        })
+}
+
+/// For a box that occurs twice, geo's boolean operations either fail loudly (panic / no
+/// termination: known finding D9) or return the empty region (probe: 0 wrong values in 2428
+/// returning calls), so a non-zero share of such a box is not excused. The shares of the boxes
+/// occurring once next to duplicates are in D9's input class (coincident edges after the first
+/// subtraction) and are excused like any other degenerate set.
+pub fn check_dups(c: &DupCase) -> CaseResult {
+    let rb: Vec<geom::RBox> = c.boxes.iter().map(|b| b.rbox()).collect();
+    if degenerate(&rb) {
+        return Ok(CaseOk::new(false).label("distinct_boxes_not_in_general_position_skipped"));
+    }
+    let libs: Vec<Universal2DBox> = c.boxes.iter().map(|b| b.lib()).collect();
+    let copies: Vec<Universal2DBox> = c.dups.iter().map(|(i, _)| c.boxes[*i].lib()).collect();
+    let mut refs: Vec<&Universal2DBox> = libs.iter().collect();
+    let mut idx: Vec<usize> = (0..libs.len()).collect();
+    for (k, (i, alias)) in c.dups.iter().enumerate() {
+        refs.push(if *alias { &libs[*i] } else { &copies[k] });
+        idx.push(*i);
+    }
+    let got = match guard(|| {
+        let polys = exclusively_owned_areas(&refs);
+        exclusively_owned_areas_normalized_shares(&refs, &polys)
+    }) {
+        Ok(v) => v,
+        Err((loc, msg)) => return Err(qualify(panic_fail(loc, msg, " on a set with exact duplicates"), true)),
+    };
+    ensure!(got.len() == refs.len(), "own-area-count", "{} shares for {} boxes", got.len(), refs.len());
+    let mult: Vec<usize> = (0..libs.len()).map(|i| idx.iter().filter(|&&j| j == i).count()).collect();
+    // a box that occurs twice is fully covered by its twin: never excused
+    for (pos, &i) in idx.iter().enumerate() {
+        if mult[i] > 1 {
+            let g = got[pos] as f64;
+            let tol = 1e-4 + 2.0 * EPS as f64 / rb[i].area();
+            ensure!(g.is_finite() && g.abs() <= tol, "own-area-duplicate-value", "box at position {} (box {} of the set) occurs {} times in the set, i.e. is fully covered by its twin, but its share is {}", pos, i, mult[i], g);
+        }
+    }
+    // the boxes that occur once: subtracting the same polygon twice leaves geo with coincident
+    // edges, the input class of known finding D9 (wrong region returned silently)
+    for (pos, &i) in idx.iter().enumerate() {
+        if mult[i] == 1 {
+            let area = rb[i].area();
+            let reference = geom::exclusive_area(&rb, i) / area;
+            let g = got[pos] as f64;
+            let tol = 1e-4 + 2.0 * EPS as f64 / area;
+            if !(g.is_finite() && (g - reference).abs() <= tol) {
+                return Err(qualify(Fail::new("own-area-value", format!("share of box {} (occurring once, next to duplicated boxes) is {} but the uncovered fraction is {}", i, g, reference)), true));
+            }
+        }
+    }
+    Ok(CaseOk::new(true).label_if(c.dups.iter().any(|d| d.1), "same_object_twice").label_if(c.dups.iter().any(|d| !d.1), "separate_copy"))
+}
+
 pub fn run(env: &Env, rep: &Report) {
     rep.set_rule("sets of 1..8 boxes: integer axis-aligned (exact grid count), random axis-aligned and rotated (inclusion-exclusion over convex intersections), near-degenerate sets (identical boxes, shared / partially overlapping collinear edges, right-angle rotations, hair-angle perturbations). Non-trivial: >=3 boxes with a region covered by >=3 of them, or a degenerate set; distinct = distinct serialized case");
     rep.assume("reference: oracle/geom.rs inclusion-exclusion (f64) and exact unit-cell counting; tolerance 1e-4 + 2 EPS/area");
@@ -323,12 +395,25 @@ pub fn run(env: &Env, rep: &Report) {
         })
     };
     par_generated(rep, "sets", set_case, env.tier.pick(40_000, 1_000_000), workers(), check);
+    let pool2 = IsoPool::new(&env.prop, "dups", std::time::Duration::from_secs(10));
+    let check2 = |c: &DupCase| -> CaseResult {
+        pool2.eval(c).map_err(|f| if f.signature.starts_with("hang@") || f.signature.starts_with("panic@thread:") { qualify(f, true) } else { f })
+    };
+    par_generated(rep, "dups", dup_case, env.tier.pick(12_000, 300_000), workers(), check2);
     rep.set_extra("child_timeouts", serde_json::json!(pool.timeouts.load(std::sync::atomic::Ordering::Relaxed)));
     rep.set_extra("child_crashes", serde_json::json!(pool.crashes.load(std::sync::atomic::Ordering::Relaxed)));
 }
 
 /// Replay through a child process (a known hanging input must not hang the replay tier).
 pub fn replay_isolated(env_prop: &str, sub: &str, case: Value) -> Option<CaseResult> {
+    if sub == "dups" {
+        let c: DupCase = match serde_json::from_value(case) {
+            Ok(c) => c,
+            Err(e) => return Some(Err(Fail::new("replay-decode", format!("{}", e)))),
+        };
+        let pool = IsoPool::new(env_prop, "dups", std::time::Duration::from_secs(10));
+        return Some(pool.eval(&c).map_err(|f| if f.signature.starts_with("hang@") || f.signature.starts_with("panic@thread:") { qualify(f, true) } else { f }));
+    }
     if sub != "sets" {
         return None;
     }
@@ -351,6 +436,7 @@ pub fn replay_isolated(env_prop: &str, sub: &str, case: Value) -> Option<CaseRes
 pub fn replay(sub: &str, case: Value) -> Option<CaseResult> {
     match sub {
         "sets" => Some(replay_case(case, check_set, sub)),
+        "dups" => Some(replay_case(case, check_dups, sub)),
         _ => None,
     }
 }
